@@ -27,7 +27,17 @@ def check(run):
             run.ob("C13.R1", "%s:%s" % (f.fq, k), ok, site, what)
         if not facts:
             run.ob("C13.R1", "%s:consumes-buffer" % f.fq, False, run.site(f), "parser no longer consumes its buffer")
-    run.floor("C13.R1", 8)
+        for k, ok, site, what in hp.take_consume_facts(run, f, bufs):
+            run.ob("C13.R1", "%s:%s" % (f.fq, k), ok, site, what)
+    run.floor("C13.R1", 14)
+    # R4 stateful sub-parsers survive waits
+    n4 = 0
+    for mod, q in ((HT, "parseChunk"), (HS, "Requestant.parseHead"), (HS, "Requestant.parseBody"), (HC, "Respondent.parseHead"),
+                   (HC, "Respondent.parseBody"), (HT, "Parsent.parseMessage"), (HT, "EventSource.parseEvents")):
+        f = ix.func(mod, q)
+        for k, ok, site, what in hp.subparser_facts(run, f):
+            run.ob("C13.R4", "%s:%s" % (f.fq, k), ok, site, what)
+    run.floor("C13.R4", 10)
     sites = {}
     for name in ("parseLine", "parseLeader"):
         f = ix.func(HT, name)
@@ -38,9 +48,19 @@ def check(run):
         for k, ok, site, what in hp.prefix_hazard_facts(run, f, cs):
             run.ob("C13.R2", "%s:%s" % (f.fq, k), ok, site, what)
     run.extra["terminator_call_sites"] = {n: [[f.fq, [repr(x) for x in t]] for f, c, t in cs] for n, cs in sites.items()}
+    # only the server-sent-event line parser admits a bare CR; HTTP framing lines end in CRLF (LF tolerated)
+    for name, cs in sites.items():
+        for sf, call, tup in cs:
+            sse = sf.qualname.startswith("EventSource.")
+            has_cr = b"\r" in tup
+            ok = has_cr == sse if sse else not has_cr
+            run.ob("C13.R2", "%s:eols-at:%s:%s" % (sf.fq, name, call.keywords[-1].value.value if call.keywords and isinstance(call.keywords[-1].value, ast.Constant) else "default"),
+                   ok, run.site(sf, call),
+                   "" if ok else "%s calls %s with terminators %s: a bare CR is a line end only in event streams; an HTTP start/header/chunk line "
+                   "split between CR and LF is cut at the CR and the stray LF is taken for an empty line (end of headers)" % (sf.qualname, name, [repr(t) for t in tup]))
     total = sum(len(v) for v in sites.values())
     run.ob("C13.R2", "%s:terminator-call-sites-evaluated" % HT, total >= 8, "", "" if total >= 8 else "only %d call sites of parseLine/parseLeader found" % total)
-    run.floor("C13.R2", 7)
+    run.floor("C13.R2", 16)
     # R3 makeParser closes the old generator
     mp = ix.func(HT, "Parsent.makeParser")
     store = [n for n in walk_local(mp.node) if isinstance(n, ast.Assign) and dotted(n.targets[0]) == "self.parser"]
@@ -61,5 +81,9 @@ MUTANTS = [
     Mutant("selector-nonstrict", HT, "parseLine", "idx < index):", "idx <= index):", {"C13.R2"}),
     Mutant("reintroduce-cr-split", HT, "parseLine", "            skip = True\n", "            skip = False\n", {"C13.R2"}),
     Mutant("makeparser-no-close", HT, "Parsent.makeParser", "        if self.parser:\n            self.parser.close()\n", "", {"C13.R3"}, canary=True),
+    Mutant("contentlength-consume-all", HC, "Respondent.parseBody", "            del self.msg[:self.length]\n", "            del self.msg[:]\n", {"C13.R1"}),
+    Mutant("trailer-parser-recreated", HT, "parseChunk", "        leaderParser = parseLeader(raw=raw,\n                                   eols=(CRLF, LF),\n                                   kind=\"trailer header line\")\n        while True:\n            headers = next(leaderParser)",
+           "        while True:\n            leaderParser = parseLeader(raw=raw,\n                                   eols=(CRLF, LF),\n                                   kind=\"trailer header line\")\n            headers = next(leaderParser)", {"C13.R4"}),
+    Mutant("request-line-default-eols", HS, "Requestant.parseHead", "lineParser = httping.parseLine(raw=self.msg, eols=(CRLF, LF), kind=\"status line\")", "lineParser = httping.parseLine(raw=self.msg, kind=\"request line\")", {"C13.R2"}),
     Mutant("silent-rename-index", HT, "parseBom", "size = len(bom)", "size = len(bom) + 0", silent=True),
 ]
